@@ -2,7 +2,7 @@
 import z3
 
 from pyvc import values as vv
-from pyvc.values import Val, VVal, VBool, VNone, NONE, Raised, parse_kind, Unsupported, fresh
+from pyvc.values import Val, VVal, VBool, VNone, NONE, Raised, VRef, parse_kind, Unsupported, fresh
 
 
 def pure_function(name, result_kind, nargs=1, facts=None):
@@ -58,6 +58,15 @@ def havoc_preexisting(ex, st, keep=()):
   stored in private slots are preserved as well."""
   from pyvc.state import ALLOC_BASE
   r = z3.Int('hp_r')
+  # private container slots not read so far still exist: materialise their arrays so that the preservation of their
+  # contents is stated now (a later first read would otherwise see an unrelated post-havoc array)
+  probe = VRef('list', z3.IntVal(0))
+  ex.list_len(st, probe), ex.list_items(st, probe), ex.dict_dom(st, probe), ex.dict_val(st, probe)
+  st.harr(('dict', 'keys'), z3.IntSort(), is_ref=True)
+  for (cname, fname) in sorted(keep):
+    kind = ex.ctx.registry.fields.get((cname, fname))
+    if kind is not None and kind.tag in ('list', 'dict', 'set', 'tuple') and (cname, fname) not in st.heap:
+      st.harr((cname, fname), kind.sort(), is_ref=True, owned=getattr(kind, 'owned', False))
   before = dict(st.heap)
   container_keys = [('list', 'len'), ('list', 'items'), ('dict', 'dom'), ('dict', 'val'), ('dict', 'keys')]
   for key in list(st.heap):
@@ -69,6 +78,16 @@ def havoc_preexisting(ex, st, keep=()):
     st.axiom(z3.ForAll([r], z3.Implies(r >= ALLOC_BASE, z3.Select(new, r) == z3.Select(old, r))))
     if old.sort().range() == z3.IntSort() and key[1] not in ('len',):
       st.axiom(z3.ForAll([r], z3.Implies(r < ALLOC_BASE, z3.And(z3.Select(new, r) >= 0))))
+  # ghost containers (call logs, wire logs ...) are specification state: user code cannot touch them
+  for g, v in st.ghost.items():
+    if isinstance(v, VRef) and v.cls in ('list', 'tuple', 'dict', 'set'):
+      refs = [v.t]
+      if v.cls in ('dict', 'set') and ('dict', 'keys') in before:
+        refs.append(z3.Select(before[('dict', 'keys')], v.t))
+      for ck in container_keys:
+        if ck in before and not before[ck].eq(st.heap[ck]):
+          for rt in refs:
+            st.heap[ck] = z3.Store(st.heap[ck], rt, z3.Select(before[ck], rt))
   # contents of private containers survive
   for (cname, fname) in keep:
     kind = ex.ctx.registry.fields.get((cname, fname))
